@@ -198,8 +198,12 @@ def _observe(engine) -> dict:
 
 
 def run_trace(case, max_ticks: int = 1500) -> Trace:
+    from vp.harness import engine_h
     from vp.harness.engine_h import EngineHarness
     from openpectus.engine.engine_message_builder import EngineMessageBuilder
+    # a case must not depend on what the process ran before: run ids / instance ids come from the harness' uuid counter and
+    # the engine iterates over sets of such ids, so the counter restarts with every case
+    engine_h._uuid_counter[0] = 0
     lines = G.render(case["tree"])
     h = EngineHarness(G.as_method_lines(lines))
     e = h.engine
